@@ -59,11 +59,11 @@ void RETURNStatement::unparse(Context& ctx, FILE * out) const
 RETURNStatement * RETURNStatement::parse(Parser& p, Context& ctx)
 {
   RETURNStatement * s = new RETURNStatement();
-  TokenPtr t = p.front();
-  if (t->code == Parser::Separator)
-    return s;
   try
   {
+    TokenPtr t = p.front();
+    if (t->code == Parser::Separator)
+      return s;
     s->_exp = ParseExpression::expression(p, ctx);
     return s;
   }
